@@ -506,6 +506,45 @@ example :
       (convolve1dG id (fun x => x == 0) .mirror f true 1 #[2, -1]).1 := by
   decide +kernel
 
+/-- **C06-T3e (the branch `axis == ndim − 1` of the fast path: no `tmp`).** When the axis is the last one
+`indices` is the identity (`moveLast (k+1) k = range (k+1)`), and the Python code lets the C kernel write
+straight into `out.reshape((-1, N))`, a 2-D view of the C-contiguous output: `out` is then the 2-D buffer
+read with the shape of `f` (`convolve1dLastAxis` = `reshapeImg f.shape tmp`; numpy semantics assumed: a
+reshape of a C-contiguous array is a view with the same C-order content). For every rank ≥ 1, shape, kernel
+shorter than the last axis, mode and cast, this equals the tabulated cast defining sum with the kernel
+embedded on the last axis, i.e. `convolve1dG` on either path — the same list as the general branch of T3d
+(`unrowsView` on the last axis is that plain reshape, `unrowsView_last`). -/
+theorem C06_convolve1d_last_axis_branch {R : Type} [CommSemiring R] (cast : R → R) (isZero : R → Bool)
+    (hz : ∀ x, isZero x = true → x = 0) (m : Mode) (f : Img R) (w : Array R) (hn : 0 < f.shape.length)
+    (hw : w.size < f.shape.getD (f.shape.length - 1) 1) :
+    moveLast f.shape.length (f.shape.length - 1) = List.range f.shape.length ∧
+    (convolve1dLastAxis cast m f w).shape = f.shape ∧
+    (convolve1dLastAxis cast m f w).data.toList =
+      ((allPos f.shape).map fun p =>
+        cast (convSpec m f (embedShape f.shape.length (f.shape.length - 1) w.size) w p)) ∧
+    (convolve1dLastAxis cast m f w).data.toList =
+      (convolve1dViaTranspose cast m f (f.shape.length - 1) w).data.toList ∧
+    (∀ contig, (convolve1dLastAxis cast m f w).data.toList =
+      (convolve1dG cast isZero m f contig (f.shape.length - 1) w).1) := by
+  have hax : f.shape.length - 1 < f.shape.length := by omega
+  obtain ⟨h1, h2⟩ := lastAxis_eq_spec cast m f w hn hw
+  have hid : moveLast f.shape.length (f.shape.length - 1) = List.range f.shape.length := by
+    have := moveLast_last (f.shape.length - 1)
+    rwa [Nat.sub_add_cancel hn] at this
+  refine ⟨hid, h1, h2, ?_, fun contig => ?_⟩
+  · rw [h2, (viaTranspose_eq_spec cast m f _ w hax hw).2]
+  · rw [h2, convolve1dG_eq_spec cast isZero hz m f contig _ w hax]
+
+/-- non-vacuity of T3e: the same 2×3×2 image along its last axis (view `[6, 2]`, rows = memory rows),
+    kernel `[3]` of length 1 < 2, nearest mode. -/
+example :
+    let f : Img Int := { shape := [2, 3, 2], data := #[1, 2, 3, 4, 5, 6, 7, 8, 9, 10, 11, 12] }
+    moveLast 3 2 = [0, 1, 2] ∧ (rowsView f 2).shape = [6, 2] ∧ (rowsView f 2).data = f.data ∧
+    (convolve1dLastAxis id .nearest f #[3]).data = #[3, 6, 9, 12, 15, 18, 21, 24, 27, 30, 33, 36] ∧
+    (convolve1dLastAxis id .nearest f #[3]).data.toList =
+      (convolve1dG id (fun x => x == 0) .nearest f true 2 #[3]).1 := by
+  decide +kernel
+
 /-- **C06-T4e (separability: `gaussian_filter` = ONE n-D convolution with the outer-product kernel).**
 With exact arithmetic and no rounding between the passes (commutative semiring, identity output cast —
 the float64 / exactly-representable case), for every rank, every shape (axes shorter than the kernels
